@@ -309,6 +309,9 @@ func (w SocialWrappedCallbacks) update(c context.Context, a vocab.ActivityStream
 		if err != nil {
 			return err
 		}
+		if t == nil {
+			return fmt.Errorf("cannot update %s: it is not stored here", loopId)
+		}
 		m, err := t.Serialize()
 		if err != nil {
 			return err
@@ -379,6 +382,9 @@ func (w SocialWrappedCallbacks) deleteFn(c context.Context, a vocab.ActivityStre
 		t, err := w.db.Get(c, loopId)
 		if err != nil {
 			return err
+		}
+		if t == nil {
+			return fmt.Errorf("cannot delete %s: it is not stored here", loopId)
 		}
 		tomb := toTombstone(t, loopId, w.clock.Now())
 		if err := w.db.Update(c, tomb); err != nil {
